@@ -374,6 +374,7 @@ type PathCase struct {
 	PathSep bool     `json:"pathsep,omitempty"`
 	NumKeys bool     `json:"numkeys,omitempty"`
 	MaxIdx  int64    `json:"maxidx,omitempty"` // 0: default (1024)
+	MaxIdx0 bool     `json:"maxidx0,omitempty"` // the option MaxIdx(0): index 0 is the only list index
 	Ops     []PathOp `json:"ops"`
 }
 
@@ -385,7 +386,10 @@ const nPathOps = 14
 
 func genPath(t *rapid.T) PathCase {
 	c := PathCase{PathSep: rapid.Bool().Draw(t, "pathsep"), NumKeys: rapid.IntRange(0, 3).Draw(t, "numkeys") == 0}
-	c.MaxIdx = rapid.SampledFrom([]int64{0, 0, 0, 1, 7, 5000}).Draw(t, "maxidx")
+	c.MaxIdx = rapid.SampledFrom([]int64{0, 0, 0, 1, 7, 5000, -1}).Draw(t, "maxidx")
+	if c.MaxIdx < 0 {
+		c.MaxIdx, c.MaxIdx0 = 0, true
+	}
 	n := rapid.IntRange(1, 8).Draw(t, "nops")
 	for i := 0; i < n; i++ {
 		c.Ops = append(c.Ops, PathOp{Kind: rapid.IntRange(0, nPathOps-1).Draw(t, "kind"), Name: rapid.SampledFrom(nameSpellings).Draw(t, "name"), Idx: rapid.SampledFrom(idxValues).Draw(t, "idx")})
@@ -402,7 +406,7 @@ func pathOpts(c PathCase) ([]ucfg.Option, int) {
 		opts = append(opts, ucfg.EnableNumKeys(true))
 	}
 	limit := 1024
-	if c.MaxIdx != 0 {
+	if c.MaxIdx != 0 || c.MaxIdx0 {
 		opts = append(opts, ucfg.MaxIdx(c.MaxIdx))
 		limit = int(c.MaxIdx)
 	}
@@ -482,7 +486,7 @@ func runPathQuiet(c PathCase) error { return runPath(c, &runlog.R{}) }
 
 var subPath = runlog.Register(&runlog.Sub[PathCase]{
 	Name:    "path-ops",
-	Rule:    "sequences of 1-8 calls of Set*/SetChild/Remove/typed getters/Child/Has/HasField/CountField/PathOf/Merge/NewFrom/Unpack/FlattenedKeys with names from 49 spellings (negative, signed, hex/octal/binary, huge, dotted with empty and negative segments, blanks, non-ASCII digits) and indices from {MinInt64, -2^31, -5, -2, -1, 0..3, 1023..1025, 5000, 1e5, 1e6}, with and without PathSep, EnableNumKeys and MaxIdx in {default, 1, 7, 5000}; must return, and after every setter no list anywhere is longer than MaxIdx+1. Non-trivial: the sequence contains a hostile name or index and at least one call returned an error.",
+	Rule:    "sequences of 1-8 calls of Set*/SetChild/Remove/typed getters/Child/Has/HasField/CountField/PathOf/Merge/NewFrom/Unpack/FlattenedKeys with names from 49 spellings (negative, signed, hex/octal/binary, huge, dotted with empty and negative segments, blanks, non-ASCII digits) and indices from {MinInt64, -2^31, -5, -2, -1, 0..3, 1023..1025, 5000, 1e5, 1e6}, with and without PathSep, EnableNumKeys and MaxIdx in {default, 0, 1, 7, 5000}; must return, and after every setter no list anywhere is longer than MaxIdx+1. Non-trivial: the sequence contains a hostile name or index and at least one call returned an error.",
 	Gen:     genPath,
 	Run:     runPath,
 	Journal: true,
